@@ -230,6 +230,13 @@ def run(ctx, tier):
                        'handler, exceptional ones included', floor=2)
     from .rules_c11 import settings_refresh_rule
     settings_refresh_rule(ctx, make_interp(ctx.model), 'C12.R7', 'mayShrinkRegionsWhilePrinting')
+    # "while a print is active" is a statement about the event machine (paused is still printing): C11.R1 / R3 are premises
+    from . import rules_c11
+    ctx.rule('C11.R1', 'C11: event machine - started => active; done / failed / cancelling / cancelled / error => inactive; no other '
+                       'event (pause, resume, ...) changes the active-print flag', floor=20)
+    ctx.rule('C11.R3', 'C11: the active-print flag is written only by __init__, initialize and on_event', floor=3)
+    rules_c11.event_rule(ctx, make_interp(ctx.model))
+    rules_c11.writers_rule(ctx)
     geometry_rule(ctx)
     # the containment predicates the guard relies on (same rules as C17.R1/R3/R4)
     from . import rules_c17
